@@ -233,16 +233,9 @@ def r15_4(ctx, repo):
             nest = v.axes[0].nest
             # the column varies along `role` only: its nest must place the
             # role factor at the position it has in the value layout
-            labels = [l for l, s in nest]
-            full = [l for l, s in want]
-            ok = eq(v.axes[0].size, N_O * N_T * N_S)
-            if labels == full:
-                pass
-            elif col == 'Observable':
-                # (n_outputs > n_times*n_samples)
-                ok = ok and labels[0] == N_O.name
-            else:
-                ok = False
+            from ..shapes import nest_refines
+            ok = eq(v.axes[0].size, N_O * N_T * N_S) and nest_refines(
+                want, nest, keep=role)
             if ok:
                 ctx.ok(rule, where, construct,
                        'column %s is laid out like the flattened '
